@@ -101,6 +101,10 @@ func c06Targets() []c06Target {
 		{"Struct(&dupb/dup.T).Method(Get)", 31, nil, func(b *mocker.Builder, s *[]int) {
 			b.Struct(&dupb.T{}).Method("Get").Apply(func(t *dupb.T, x int) int { *s = append(*s, t.K); return 31*100000 + t.K*100 + x })
 		}, 0},
+		// a VALUE-receiver unexported method addressed through the pointer form of its type: the symbol (*A).val does not
+		// exist (no wrapper is generated), so goom may refuse; if it accepts, the callback must still see the receiver
+		{"Struct(&A).ExportMethod(val) [may be refused]", 7, nil, func(b *mocker.Builder, s *[]int) { b.Struct(&mz.A{}).ExportMethod("val").Apply(cbA(s, 16)) }, -1},
+		{"Pkg.ExportStruct(*A).Method(val) [may be refused]", 7, nil, func(b *mocker.Builder, s *[]int) { b.Pkg(c06Pkg).ExportStruct("*A").Method("val").Apply(cbA(s, 17)) }, -1},
 		// ... and a callback, which must see the receiver as its first argument
 		{"Struct(&G[string]).Method(Other).Apply", 20, nil, func(b *mocker.Builder, s *[]int) {
 			b.Struct(&mz.G[string]{}).Method("Other").Apply(func(g *mz.G[string], x int) int { *s = append(*s, g.K); return 19*100000 + g.K*100 + x })
@@ -113,6 +117,9 @@ func c06(args []string) int {
 	rng := hxlib.NewRng(c.seed)
 	out := hxlib.NewOut(c.out)
 	defer out.Close()
+	if c.extra == "inner" {
+		return c06Inner(c, rng, out)
+	}
 	tg := c06Targets()
 	nm := len(mz.Names)
 	out.Put(map[string]interface{}{"kind": "zoo", "names": mz.Names, "consts": mz.Consts})
